@@ -368,6 +368,23 @@ func (ev *evaluator) eval(fr *evalFrame, v ssa.Value, depth int) (interface{}, b
 			}
 			return nil, false
 		}
+		// strconv.ParseInt of an evaluated text (the checker's own conversion)
+		if call, isCall := x.Tuple.(*ssa.Call); isCall {
+			if sc := call.Common().StaticCallee(); sc != nil && sc.String() == "strconv.ParseInt" && len(call.Common().Args) == 3 {
+				a, ok1 := ev.eval(fr, call.Common().Args[0], depth+1)
+				b, ok2 := ev.eval(fr, call.Common().Args[1], depth+1)
+				str, isS := a.(string)
+				base, isB := b.(int64)
+				if !ok1 || !ok2 || !isS || !isB {
+					return nil, false
+				}
+				k, err := strconv.ParseInt(str, int(base), 64)
+				if x.Index == 0 {
+					return k, true
+				}
+				return absPtr{"error", err == nil}, true
+			}
+		}
 		// one result of an inlined helper that returns several
 		if call, isCall := x.Tuple.(*ssa.Call); isCall {
 			if tup, ok := ev.leaf(fr, call); ok {
@@ -1721,11 +1738,13 @@ func (ev *evaluator) runCountedFrame(fr0 *evalFrame, maxIter int) ([]interface{}
 		return nil
 	}
 	scalar := func(v interface{}) bool {
+		// any value the evaluator or a rule's leaves produce can be carried round a loop (they are values, copied as
+		// such); what is not known cannot
 		switch v.(type) {
-		case int64, string, bool, absPtr, float64, absStruct, absArray, absDate, absWeek, absOpaque, absCivil:
-			return true
+		case nil, unknownValue:
+			return false
 		}
-		return false
+		return true
 	}
 	stopAtHeader := func(b *ssa.BasicBlock) bool { return headers[b] }
 	// the part before the first loop
